@@ -578,6 +578,7 @@ func (c13) Batch(seed uint64, wid, batch, count int, deadline time.Time, emit fu
 		if time.Now().After(deadline) {
 			break
 		}
+		emit(&Record{T: "start", Runs: i})
 		r := newRng(seed, uint64(wid), uint64(batch), uint64(i), 13)
 		h := genHist13(r)
 		res := runHist13(h, x)
@@ -629,6 +630,11 @@ func abs64(x int64) int64 {
 		return -x
 	}
 	return x
+}
+
+func (c13) GenCase(seed uint64, wid, batch, i int) json.RawMessage {
+	b, _ := json.Marshal(c13Case{genHist13(newRng(seed, uint64(wid), uint64(batch), uint64(i), 13))})
+	return b
 }
 
 func (c13) Replay(rf *ReplayFile) *Violation {
